@@ -154,7 +154,7 @@ const progs=JSON.parse(fs.readFileSync(process.argv[2],'utf8'));
 
 
 # ------------------------------------------------------------------ the implementation under test
-def run_jobs(exe, sub, jobs, nproc=12, timeout=900):
+def run_jobs(exe, sub, jobs, nproc=12, timeout=900, max_hangs=None):
     """runs ndjson jobs through `vrunner <sub>` in nproc child processes; a crashed child (abort, stack overflow) loses
     only the job it was executing, which is reported with status CRASH."""
     os.makedirs(WORK, exist_ok=True)
@@ -171,6 +171,11 @@ def run_jobs(exe, sub, jobs, nproc=12, timeout=900):
             if p.poll(results):
                 nxt.append(p)
         pending = nxt
+        if max_hangs is not None and sum(1 for r in results.values() if r.get("status") == "HANG") >= max_hangs:
+            # enough hangs are on record: every further one costs STALL seconds; the remaining jobs are left unmeasured
+            for p in pending: p.kill()
+            results["__stopped__"] = {"status": "STOPPED"}
+            return results
         if time.time() - t0 > timeout:
             for p in pending: p.kill()
             vlib.tool_error("vrunner %s timed out" % sub)
